@@ -557,6 +557,8 @@ def check_design_side(mods, c, exp, uc):
     par = mods['par'].TBRMMDesignParameters(n_test=ndays, iroas=1.0, sig_level=sig_level)
     diag = mods['diag'].TBRMMDiagnostics([float(v) for v in c['y'][:n]], par)
     diag.x = [float(v) for v in c['x'][:n]]
+    if (sum(c['y']) + n) % 2 == 0:     # as on the diagnostics object of a stored design: every test was read before
+      _ = (diag.aatest, diag.bbtest, diag.dwtest, diag.tests_ok)
     f = diag.tbrfit(float(np.mean(xa)), float(np.mean(ya)))
   except Exception as e:  # pylint: disable=broad-except
     return 'DesignFitIsTotal', '%s: %s' % (type(e).__name__, e)
